@@ -1,4 +1,5 @@
 """C05 — every failure is an error value: no input crashes or hangs the interpreter."""
+import re as _re
 from mirlib import *
 from rules import psc
 from rules.psc import sym, strip, facts_at, implies_lt, macro_of
@@ -593,6 +594,75 @@ def countdown_index(F, site):
     return 'D2', 'index counts down from len() of the same (shared, unchanged) container and is decremented before every use'
 
 
+def countup_index(F, site):
+    """X[v] / X.swap_remove(v) where v starts at 0, is only ever incremented by one, every increment and the access itself
+    happen under a test `v != X.len()` of the same iteration, and X cannot change length meanwhile: then v <= X.len() is
+    an invariant of the counter and v < X.len() at the access"""
+    fn = site['f']
+    t = site['term']
+    n = site['what']
+    if not (site['kind'] == 'call' and (psc.is_index_call(n) or n.endswith(('Vec::<T, A>::swap_remove', 'Vec::<T, A>::remove'))) and len(t['args']) == 2):
+        return None
+    recv, idx = sym(fn, t['args'][0]), strip(sym(fn, t['args'][1]))
+    if idx[0] != 'mlocal':
+        return None
+    l = idx[1]
+    cont = psc.unref(recv)
+    inits, incs = [], []
+    for d in fn.defs().get(l, []):
+        if d[0] == 'call':
+            return None
+        v = strip(psc.sym_rv(fn, d[3]))
+        if v[0] == 'field' and v[2] == '0' and v[1][0] == 'binop' and v[1][1] == 'AddWithOverflow':
+            v = ('binop', 'Add', v[1][2], v[1][3])
+        if v[0] == 'binop' and v[1] == 'Add' and strip(v[2]) == ('mlocal', l) and strip(v[3]) == ('int', 1):
+            incs.append(d)
+        elif v == ('int', 0):
+            inits.append(d)
+        else:
+            return None
+    if len(inits) != 1 or not incs:
+        return None
+    ib, b = inits[0][1], site['block']
+
+    def is_len(v):
+        v = strip(v)
+        return v == ('len', cont) or (v[0] == 'call' and v[1] in psc.LEN_FNS and len(v[2]) == 1 and psc.unref(v[2][0]) == cont)
+
+    def differs(blk):
+        for f in psc.facts_at(fn, blk):
+            if f[0] == 'Ne' and ((strip(f[1]) == ('mlocal', l) and is_len(f[2])) or (strip(f[2]) == ('mlocal', l) and is_len(f[1]))):
+                return True
+            if f[0] == 'Lt' and strip(f[1]) == ('mlocal', l) and is_len(f[2]):
+                return True
+        return False
+    def_blocks = {d[1] for d in inits + incs}
+
+    def differs_on_entry(x):
+        # (facts_at drops a fact whose variable is assigned anywhere in the block; the increment is such an assignment, so
+        # for its block the fact is taken at the end of each predecessor)
+        preds = [q for q in fn.normal_blocks() if x in fn.succ(q)]
+        return differs(x) or (bool(preds) and all(differs(q) and q not in def_blocks for q in preds))
+    if not differs(b) or not all(differs_on_entry(d[1]) and sum(1 for e in incs if e[1] == d[1]) == 1 for d in incs):
+        return None
+    # nothing between the initialisation and the access can change the container's length: no call there receives a `&mut`
+    region = {x for x in fn.reachable(ib) if b in fn.reachable(x)} | {ib, b}
+    for x in region:
+        tx = fn.term(x)
+        if tx['k'] == 'call' and not (x == b):
+            for a in tx['args']:
+                if a.get('k') in ('copy', 'move') and not a['place']['proj'] and _re.match(r"^&('\S+ )?mut ", fn.local_ty(a['place']['local'])):
+                    return None
+        for st in fn.blocks[x]['stmts']:
+            if st['k'] == 'assign' and st['rv']['k'] == 'ref' and st['rv'].get('mut') and x != b:
+                # a mutable borrow that is not the receiver of the access itself
+                tgt = st['place']['local']
+                used_by_site = any(a.get('k') in ('copy', 'move') and a['place']['local'] == tgt for a in t['args'])
+                if not used_by_site:
+                    return None
+    return 'D2', 'index counts up from 0 by one; each increment and the access follow a test index != len() of the same unchanged container'
+
+
 # ---- D3: structural invariants proved by other rules -------------------------------------------
 def _csa_ok(ctx, obligs, construct_prefix=None):
     from rules import csa_run
@@ -1056,7 +1126,7 @@ def verdict_for(ctx, s, rows=None, cache=None):
                 verdict = (ok, 'D3[%s]: %s' % (rule, why))
                 break
     if verdict is None or not verdict[0]:
-        pd = path_discharge(F, s) or countdown_index(F, s) or assertion_infeasible(F, s)
+        pd = path_discharge(F, s) or countdown_index(F, s) or countup_index(F, s) or assertion_infeasible(F, s)
         if pd:
             verdict = (True, '%s: %s' % pd)
     if verdict is None:
